@@ -589,6 +589,36 @@ const BAD_FILTERS: &[&str] = &["", "a/#/b", "a+", "#a", "$share/g", "$share//a",
 
 /// Applies one catalogue entry. `None` when the site does not apply after all (the caller counts it).
 pub fn apply(orig: &WPacket, site: &Site, t: &mut Tape) -> Option<Mutated> {
+    let mut out = None;
+    apply_ex(orig, site, t, &mut out)
+}
+
+/// Several entries applied one after the other to the same packet (only the decoder-facing
+/// corpus uses this; C20 applies exactly one). Model-level entries are chained on the wire
+/// model; a byte-level entry (wrong remaining length, inner length past the end) ends the chain.
+pub fn apply_chain(orig: &WPacket, sites: &[Site], t: &mut Tape) -> Option<(Vec<u8>, Vec<&'static str>)> {
+    let mut cur = orig.clone();
+    let mut names = Vec::new();
+    let mut last: Option<Vec<u8>> = None;
+    for s in sites {
+        let mut out = None;
+        match apply_ex(&cur, s, t, &mut out) {
+            Some(m) => {
+                names.push(s.entry.name());
+                last = Some(m.bytes);
+                match out {
+                    Some(w2) => cur = w2,
+                    None => break,
+                }
+            }
+            None => continue,
+        }
+    }
+    last.map(|b| (b, names))
+}
+
+/// like `apply`; `out_w` receives the edited wire model when the entry works on the model
+pub fn apply_ex(orig: &WPacket, site: &Site, t: &mut Tape, out_w: &mut Option<WPacket>) -> Option<Mutated> {
     let mut w = orig.clone();
     let ty = w.typ();
     let v5 = w.fam == Fam::V5;
@@ -688,6 +718,9 @@ pub fn apply(orig: &WPacket, site: &Site, t: &mut Tape) -> Option<Mutated> {
         }
         Entry::V5Reason => {
             let table = reason_codes(ty);
+            if table.is_empty() {
+                return None; // (an earlier edit of the chain changed the type nibble)
+            }
             // neighbours of legal codes, codes of other packet types, or any byte
             let mut b = match t.pick(4) {
                 0 => table[t.pick(table.len())].wrapping_add(1),
@@ -899,6 +932,10 @@ pub fn apply(orig: &WPacket, site: &Site, t: &mut Tape) -> Option<Mutated> {
             }
             (all(ExpErr::EmptySubscription), "empty subscription list".into())
         }
+        Entry::RlStrict | Entry::RlSmall | Entry::InnerPastEnd if w.rl_delta != 0 || w.rl_width != 0 || !w.trailing.is_empty() => {
+            // the length entries assume a consistently framed base packet
+            return None;
+        }
         Entry::RlStrict => {
             // over-declared (trailing bytes inside the frame) or under-declared (frame cut short)
             let k = 1 + t.pick(3);
@@ -916,7 +953,7 @@ pub fn apply(orig: &WPacket, site: &Site, t: &mut Tape) -> Option<Mutated> {
             } else {
                 let full = serialize(&w)?;
                 let (hl, rl) = crate::refdec::frame_bounds(&full).ok()?;
-                if rl < k {
+                if rl < k || full.len() < hl + k {
                     return None;
                 }
                 let mut bytes = vec![w.first];
@@ -968,6 +1005,7 @@ pub fn apply(orig: &WPacket, site: &Site, t: &mut Tape) -> Option<Mutated> {
         }
     };
     let bytes = serialize(&w)?;
+    *out_w = Some(w);
     Some(Mutated { bytes, expect, desc })
 }
 
